@@ -237,7 +237,17 @@ pub fn run_x(line: &str) -> String {
         let r = std::panic::catch_unwind(std::panic::AssertUnwindSafe(|| run_x_inner(&c2, t2)));
         let _ = tx.send(r.map_err(|_| ()));
     });
-    let verdict = match recv_patiently(&rx) {
+    // queue length 0: nothing is queued anywhere and no work is under way when the call stands still – whether it comes
+    // back is decided within milliseconds, the long patience (meant for loaded machines and slow workers) is not needed
+    let got = if c.q == 0 {
+        match rx.recv_timeout(Duration::from_secs(3)) {
+            Err(std::sync::mpsc::RecvTimeoutError::Timeout) => rx.recv_timeout(Duration::from_secs(3)),
+            r => r,
+        }
+    } else {
+        recv_patiently(&rx)
+    };
+    let verdict = match got {
         Ok(Ok(s)) => s,
         Ok(Err(())) => "PANIC".to_string(),
         Err(_) => "HANG".to_string(),
